@@ -130,6 +130,8 @@ def _norm_effect(e, ignore_kinds, ignore_calls, ordered=False, store_fields=None
         # after dropping ignored effects, rows that no longer differ merge over complementary guards
         from ..vn import _merge_rows
         inner = [(tuple(sorted(map(srepr, c))), p[0], p[1]) for c, p in _merge_rows(inner)]
+        if all(not es and r is None for _c, es, r in inner):
+            return None      # nothing left in any iteration once the ignored effects are dropped
         return ("foreach", e[1], tuple(sorted(inner, key=srepr)))
     return e
 
